@@ -59,10 +59,15 @@ def gen_generation(rnd, index, ending):
     if population == "submitters":
         for t in range(rnd.randint(1, 3)):
             ops = []
-            for j in range(rnd.randint(3, 10)):
+            for j in range(rnd.randint(8, 30)):
                 pid = "sub%d_%d" % (t, j)
-                gen["payloads"].append({"id": pid, "flavour": rnd.choice(common.FLAVOURS), "program": rnd.choice([[["sleep", 0.01]], [["beat", 0.01, 3]]]), "cleanup": {"kind": "none"}})
-                ops += [["adopt", pid], ["sleep", rnd.choice([0.0, 0.005, 0.02])]]
+                # short-lived and long-lived payloads: the latter are still alive when the runtime closes
+                program = rnd.choice([[["sleep", 0.01]], [["beat", 0.01, 3]], [["beat", 0.01, None]], [["block"]], [["spin", None]]])
+                flavour = rnd.choice(common.FLAVOURS)
+                if flavour == "threading" and program[0][0] in ("spin",):
+                    program = [["block"]]
+                gen["payloads"].append({"id": pid, "flavour": flavour, "program": program, "cleanup": {"kind": "none"}})
+                ops += [["adopt", pid], ["sleep", rnd.choice([0.0, 0.005, 0.02, 0.03])]]
             script.append(["thread", ops])
     n_second = rnd.choice([0, 0, 1, 2, 3])
     for k in range(n_second):
